@@ -290,11 +290,11 @@ theorem readFrame_cons (s : Src) (f : Frame) (fs : List Frame) (hf : f.WF) (h : 
   rw [h, encodeAll_cons, parse_encode f hf] at h1 h2
   exact ⟨h1, h2, h4⟩
 
-theorem nextFrame_spec (tl : Tail) (fs : List Frame) (st : FS) (k p : Nat)
+theorem nextFrame_spec (trk : Tracker) (tl : Tail) (fs : List Frame) (st : FS) (k p : Nat)
     (hflat : st.conn.flat = encodeAll fs) (htail : st.conn.tail = tl) (hwf : ∀ f ∈ fs, f.WF)
     (hre : st.readEOF = false) (hk : fs.length < k) :
     ReadPost tl st.tunnelID st.writeEOF st.broken (deliver st.tunnelID fs).1 (deliver st.tunnelID fs).2
-      fs.length p (nextFrame k st p).1 (nextFrame k st p).2 := by
+      fs.length p (nextFrame trk k st p).1 (nextFrame trk k st p).2 := by
   induction fs generalizing st k with
   | nil =>
     cases k with
@@ -322,8 +322,8 @@ theorem nextFrame_spec (tl : Tail) (fs : List Frame) (st : FS) (k p : Nat)
       simp only at hrec
       have hskip : ReadPost tl st.tunnelID st.writeEOF st.broken (deliver st.tunnelID fs).1
           (deliver st.tunnelID fs).2 (f :: fs).length p
-          (nextFrame k { st with conn := (readFrame st.conn).rest } p).1
-          (nextFrame k { st with conn := (readFrame st.conn).rest } p).2 :=
+          (nextFrame trk k { st with conn := (readFrame st.conn).rest } p).1
+          (nextFrame trk k { st with conn := (readFrame st.conn).rest } p).2 :=
         ReadPost_mono hrec (by simp)
       by_cases hid : f.id = st.tunnelID
       · have hb : (f.id != st.tunnelID) = false := by simp [hid]
@@ -383,13 +383,13 @@ theorem nextFrame_spec (tl : Tail) (fs : List Frame) (st : FS) (k p : Nat)
               exact hskip
       · have hb : (f.id != st.tunnelID) = true := by simpa using hid
         have hb' : (f.id == st.tunnelID) = false := by simpa using hid
-        simp only [nextFrame, h1, hb, if_true, deliver, hb', Bool.false_eq_true, if_false]
+        simp only [nextFrame, h1, hb, if_true, ite_self, deliver, hb', Bool.false_eq_true, if_false]
         exact hskip
 
-theorem read_spec (tl : Tail) (fs : List Frame) (st : FS) (fuel p : Nat) (hinv : Inv st fs tl)
+theorem read_spec (trk : Tracker) (tl : Tail) (fs : List Frame) (st : FS) (fuel p : Nat) (hinv : Inv st fs tl)
     (hk : fs.length < fuel) :
     ReadPost tl st.tunnelID st.writeEOF st.broken (pend st fs) (deliver st.tunnelID fs).2
-      fs.length p (FS.read fuel st p).1 (FS.read fuel st p).2 := by
+      fs.length p (FS.read trk fuel st p).1 (FS.read trk fuel st p).2 := by
   unfold FS.read
   simp only [hinv.reof, Bool.false_eq_true, if_false]
   by_cases hbuf : st.readOff < st.readBuf.length
@@ -423,35 +423,35 @@ theorem read_spec (tl : Tail) (fs : List Frame) (st : FS) (fuel p : Nat) (hinv :
         rw [List.drop_append_of_le_length hple, List.drop_drop]
   · simp only [hbuf, if_false]
     have he : st.readBuf.drop st.readOff = [] := List.drop_of_length_le (Nat.le_of_not_lt hbuf)
-    have := nextFrame_spec tl fs st fuel p hinv.flat hinv.tail hinv.wf hinv.reof hk
+    have := nextFrame_spec trk tl fs st fuel p hinv.flat hinv.tail hinv.wf hinv.reof hk
     simpa [pend, he] using this
 
-theorem readLoop_eof (fuel : Nat) (st : FS) (ps : List Nat) (h : st.readEOF = true) :
-    (readLoop fuel st ps).1 = ps.map (fun _ => RRes.eof) ∧ (readLoop fuel st ps).2 = st := by
+theorem readLoop_eof (trk : Tracker) (fuel : Nat) (st : FS) (ps : List Nat) (h : st.readEOF = true) :
+    (readLoop trk fuel st ps).1 = ps.map (fun _ => RRes.eof) ∧ (readLoop trk fuel st ps).2 = st := by
   induction ps with
   | nil => simp [readLoop]
   | cons p ps ih =>
-    have : FS.read fuel st p = (.eof, st) := by simp [FS.read, h]
+    have : FS.read trk fuel st p = (.eof, st) := by simp [FS.read, h]
     simp [readLoop, this, ih.1, ih.2]
 
 /-- The whole read side: any sequence of `Read` calls satisfies the call-by-call check. -/
-theorem readLoop_checks (tl : Tail) (fuel : Nat) (ps : List Nat) (st : FS) (fs : List Frame)
+theorem readLoop_checks (trk : Tracker) (tl : Tail) (fuel : Nat) (ps : List Nat) (st : FS) (fs : List Frame)
     (hinv : Inv st fs tl) (hk : fs.length < fuel) (eofOk : Bool)
     (heo : eofOk = ((deliver st.tunnelID fs).2 || tl == .eof)) :
-    checkReads eofOk (!eofOk) (pend st fs) ps (readLoop fuel st ps).1 = true ∧
-    (eofOk = true → (readLoop fuel st ps).2.broken = st.broken) := by
+    checkReads eofOk (!eofOk) (pend st fs) ps (readLoop trk fuel st ps).1 = true ∧
+    (eofOk = true → (readLoop trk fuel st ps).2.broken = st.broken) := by
   induction ps generalizing st fs with
   | nil => simp [readLoop, checkReads]
   | cons p ps ih =>
-    have hpost := read_spec tl fs st fuel p hinv hk
+    have hpost := read_spec trk tl fs st fuel p hinv hk
     unfold readLoop
-    cases hr : (FS.read fuel st p).1 with
+    cases hr : (FS.read trk fuel st p).1 with
     | data d =>
       rw [hr] at hpost
       obtain ⟨h1, h2, h3, h4, h5, h6, fs', h7, h8, h9, h10⟩ := hpost
-      have heo' : eofOk = ((deliver (FS.read fuel st p).2.tunnelID fs').2 || tl == .eof) := by
+      have heo' : eofOk = ((deliver (FS.read trk fuel st p).2.tunnelID fs').2 || tl == .eof) := by
         rw [h4, h10]; exact heo
-      obtain ⟨i1, i2⟩ := ih (FS.read fuel st p).2 fs' h7 (Nat.lt_of_le_of_lt h8 hk) heo'
+      obtain ⟨i1, i2⟩ := ih (FS.read trk fuel st p).2 fs' h7 (Nat.lt_of_le_of_lt h8 hk) heo'
       simp only [hr]
       refine ⟨?_, fun he => by rw [i2 he, h6]⟩
       simp only [checkReads, Bool.and_eq_true, decide_eq_true_eq]
@@ -466,7 +466,7 @@ theorem readLoop_checks (tl : Tail) (fuel : Nat) (ps : List Nat) (st : FS) (fs :
     | eof =>
       rw [hr] at hpost
       obtain ⟨h1, h2, h3, h4⟩ := hpost
-      obtain ⟨e1, e2⟩ := readLoop_eof fuel (FS.read fuel st p).2 ps h3
+      obtain ⟨e1, e2⟩ := readLoop_eof trk fuel (FS.read trk fuel st p).2 ps h3
       simp only [hr]
       refine ⟨?_, fun _ => by rw [e2, h4]⟩
       have hok : eofOk = true := by
